@@ -19,6 +19,7 @@ def generate(rng, tier):
              ("a*", "a"), ("a*", "b"), ("[a]b", "ab"), ("[!a]b", "ab"), ("a[]]", "a]"), ("a]", "a]"), ("a[!]]", "ab"),
              ("**", "abc"), ("**/a", "x/a"), ("a/**/b", "a/b"), ("a/**/b", "a/x/y/b"), ("a**", "a"), ("**a", "a"), ("a/**", "a/x"),
              ("/**/**/a", "/x/a"), ("x/**/**/a", "x/y/a"), ("**/**/a", "y/a"), ("**/**", "a/b"),
+             ("libX11-[0-9]*", "libx11-1.8.7"), ("foo-[a-z]", "foo-Q"), ("foo-[!a-z]", "foo-Q"), ("foo-[A-Z]", "foo-q"), ("Ab*", "ab1"),
              ("[a-", "a"), ("[!a-", "a"), ("[--0]", "."), ("[a-c-e]", "-"), ("[a-c-e]", "d"), ("é*", "éa"), ("?", "é")]
     for p, nme in fixed:
         cases.append(Case("pat.match", [enc(p), enc(nme)], tag="fixed"))
@@ -30,6 +31,7 @@ def generate(rng, tier):
             p = p.replace("{", "").replace("}", "").replace("<", "").replace(">", "")
             names = [pgen.sample_name(rng, toks)]
             names.append(pgen.edit(rng, names[0]))
+            names.append(names[0].swapcase())
             names.append(pgen.edit(rng, p))
             if rng.random() < 0.3:
                 names.append(rng.choice(["", p[:1], p[:2], rng.choice(pgen.ALPHA)]))
